@@ -330,6 +330,7 @@ def run_protocol(a, by_bb, entries=(0,), stop=None, inside=None):
     states = {e0: {zero} for e0 in entries}
     at_foreign = []  # (event, state)
     at_return = set()
+    at_return_sites = set()   # (state, block of the return)
     at_break = set()
     bad_inc = []
     work = list(entries)
@@ -361,6 +362,7 @@ def run_protocol(a, by_bb, entries=(0,), stop=None, inside=None):
             t = blocks[bb]["term"]
             if t["k"] == "return" and stop is None:
                 at_return.add(out)
+                at_return_sites.add((out, bb))
             for s2 in a.edges.get(bb, []):
                 if blocks[s2]["cleanup"]:
                     continue
@@ -373,7 +375,7 @@ def run_protocol(a, by_bb, entries=(0,), stop=None, inside=None):
                 if out not in states.setdefault(s2, set()):
                     states[s2].add(out)
                     work.append(s2)
-    return {"slots": slots, "positions": poss, "at_foreign": at_foreign, "at_return": at_return, "at_break": at_break, "bad_inc": bad_inc}
+    return {"slots": slots, "positions": poss, "at_foreign": at_foreign, "at_return": at_return, "at_break": at_break, "bad_inc": bad_inc, "at_return_sites": at_return_sites}
 
 
 def check_closure_protocol(a, cl, region=None):
@@ -419,7 +421,34 @@ def check_closure_protocol(a, cl, region=None):
                     problems.append("%s runs with reads=%s, position advances=%s: a duplicated element is still claimed by its owner (double drop on unwind)" % (e[3], st[0], st[2]))
     elif writes and not reads:
         role = "builder"
+        # a step that neither writes nor counts is in order when its result tells a short-circuiting driver to stop (ControlFlow::Break, Err,
+        # None): no later step follows it. That the driver is one that stops on it is the parent's obligation (info["stop_returns"])
+        def stop_value(v):
+            return isinstance(v, tuple) and v and v[0] == "A" and isinstance(v[1], tuple) and v[1][0] == "adt" and (
+                (v[1][1] in ("core::ops::ControlFlow", "core::result::Result") and v[1][2] == 1) or (v[1][1] == "core::option::Option" and v[1][2] == 0))
+        stops = set()
+        zero_states = [st for st in info["at_return"] if all(x == 0 for x in st[1]) and all(x == 0 for x in st[2])]
+        if region is None and zero_states and len(info["at_return"]) > 1:
+            # which value goes with which count: the same body with one return block per path (the merged return value hides it)
+            from .mirxf import treeify
+            from .absint import analyze
+            try:
+                a2 = analyze(a.db, treeify(a.body), a.models)
+                info2 = run_protocol(a2, closure_events(a2, cl, None))
+            except Exception:
+                a2, info2 = None, None
+            if info2 is not None and info2["slots"] == slots and info2["positions"] == poss:
+                sites = {}
+                for st, bb_ in info2.get("at_return_sites", ()):
+                    sites.setdefault(st, []).append(bb_)
+                for st in zero_states:
+                    bbs = sites.get(st, [])
+                    if bbs and all([r for r in a2.returns if r["bb"] == bb_] and all(stop_value(r["val"]) for r in a2.returns if r["bb"] == bb_) for bb_ in bbs):
+                        stops.add(st)
+        info["stop_returns"] = bool(stops)
         for st in info["at_return"]:
+            if st in stops:
+                continue
             if any(x != 1 for x in st[1]) or any(x != 1 for x in st[2]) or not poss:
                 normal.append("on some path writes=%s, position advances=%s per invocation (must be exactly one each)" % (st[1], st[2]))
         for e, st in info["at_foreign"]:
